@@ -11,3 +11,5 @@ def run(ctx, prog):
     J.r_optgate(ctx, prog)
     J.r_numall(ctx, prog)
     J.r_numbuf(ctx, prog)
+    from rules import scan
+    scan.run(ctx, prog)
